@@ -57,12 +57,15 @@ type Exec struct {
 	topStar bool
 	ghostSorts map[string]string
 	entryAlloc Term
+	topArgs []Value
+	recDefs map[string]bool
+	recBuilding map[string]bool
 	ghostByType map[string][]*ssa.Function
 }
 
 func newExec(w *World, cs *ContractSet, fnKey string, props []string) *Exec {
 	m := newSMT()
-	return &Exec{w: w, cs: cs, smt: m, ti: newTypeInfo(m), fnKey: fnKey, props: props, ghostSorts: map[string]string{}, oblNames: map[string]int{}, trustSeen: map[string]bool{}, recFns: map[string]bool{}}
+	return &Exec{w: w, cs: cs, smt: m, ti: newTypeInfo(m), fnKey: fnKey, props: props, ghostSorts: map[string]string{}, recDefs: map[string]bool{}, recBuilding: map[string]bool{}, oblNames: map[string]int{}, trustSeen: map[string]bool{}, recFns: map[string]bool{}}
 }
 
 func (e *Exec) unsupported(format string, a ...interface{}) {
@@ -552,6 +555,8 @@ func (e *Exec) term(fr *frame, st *State, v ssa.Value) Term {
 // CFG helpers
 
 type loopInfo struct {
+	follow *ssa.BasicBlock
+	followDone bool
 	head   *ssa.BasicBlock
 	blocks map[*ssa.BasicBlock]bool
 	ord    int
@@ -870,6 +875,11 @@ func (e *Exec) run(fn *ssa.Function, args []Value, bindings []Value, st *State, 
 		// phi nodes need the per-edge conditions
 		fr.curIns = ins
 		fr.curBlock = b
+		for _, li := range loops {
+			if loopFollow(li) == b {
+				e.loopExit(fr, cur, li, c)
+			}
+		}
 		if li, isLoop := loops[b]; isLoop {
 			cur = e.loopHead(fr, cur, li, c, func(v []Term) { lctx[b] = &loopCtx{variants: v} })
 			if lctx[b] == nil {
@@ -956,5 +966,31 @@ func (e *Exec) flow(fr *frame, st *State, from, to *ssa.BasicBlock, cond Term, i
 		e.backEdge(fr, st, loops[to], c, variants(to))
 		return
 	}
+
 	incoming[to] = append(incoming[to], edgeIn{st: st, from: from})
+}
+
+// loopFollow returns the block control reaches after the loop statement (the "*.done" successor of
+// the header outside the loop), where `after` clauses are checked: all exits (condition false,
+// break, and the code on always-exiting paths inside the loop statement) have merged there.
+func loopFollow(li *loopInfo) *ssa.BasicBlock {
+	if li.follow != nil || li.followDone {
+		return li.follow
+	}
+	li.followDone = true
+	for _, s := range li.head.Succs {
+		if !li.blocks[s] && strings.HasSuffix(s.Comment, ".done") {
+			li.follow = s
+			return s
+		}
+	}
+	// infinite `for {}`: the done block is the target of break edges
+	for b := range li.blocks {
+		for _, s := range b.Succs {
+			if !li.blocks[s] && s.Comment == "for.done" {
+				li.follow = s
+			}
+		}
+	}
+	return li.follow
 }
